@@ -59,7 +59,8 @@ Print Assumptions C08_cat_cells.
 (** Category chart, hierarchy level i (0 = leaves): as many levels as columns of the
     categories reference; the level's idx values are distinct and below the leaf count
     (= range height); the cell at row r1 + k of column c2 - i holds the label whose
-    idx is k, and is empty when no category of that level has idx k. *)
+    idx is k (a datetime label as the date of its day), and is empty when no category of
+    that level has idx k. *)
 Theorem C08_cat_levels : forall d depth sh i l k,
   forest_depth (cd_cats d) = Ok depth -> cat_sheet d = Ok sh -> 1 <= depth -> depth <= xl_colmax ->
   nth_error (levels (cd_cats d)) i = Some l ->
@@ -71,15 +72,15 @@ Theorem C08_cat_levels : forall d depth sh i l k,
   (forall e, In e l -> fst e < forest_leaf_count (cd_cats d)) /\
   NoDup (map fst l) /\
   get sh (r_r1 cr - 1 + k) (r_c2 cr - N.of_nat i - 1) =
-    match lookup k l with Some lab => xl_cell lab | None => Empty end.
+    match lookup k l with Some lab => xl_cell (date_only lab) | None => Empty end.
 Proof. exact cat_levels_by_ref. Qed.
 Print Assumptions C08_cat_levels.
 
 (** Category chart, the property: for all chart data in [cat_domain] (strings stored
-    verbatim by XlsxWriter, no empty series, no None among numeric labels, date labels
-    without time of day and date system 1900, rows within the sheet, depth <= 26) every c:ser of
-    the XML agrees with the sheet, for either value b of the chart's date1904 flag
-    that [cat_domain b] allows. *)
+    verbatim by XlsxWriter, no empty series, date or datetime labels only under date
+    system 1900, rows within the sheet; any depth, None labels, datetime labels with a
+    time of day are inside) every c:ser of the XML agrees with the sheet, for either
+    value b of the chart's date1904 flag that [cat_domain b] allows. *)
 Theorem C08_cat_chart : forall b d es sh,
   cat_domain b d = true -> cat_xml b d = Ok es -> cat_sheet d = Ok sh ->
   forallb (agree_cat_ser sh) es = true.
@@ -131,14 +132,14 @@ Theorem C08_replace : forall d0 ops st,
 Proof. exact history_agrees. Qed.
 Print Assumptions C08_replace.
 
-(** The texts written into c:f are the renderings of the structured references;
-    categories_ref only up to depth 26 (it uses chr(ord(A) + depth - 1)). *)
+(** The texts written into c:f are the renderings of the structured references, for
+    every depth and column within the sheet limits. *)
 Theorem C08_ref_texts :
   (forall depth idx len t, values_ref_text depth idx len = Ok t -> t = render_rng (values_rng depth idx len)) /\
   (forall depth idx t, series_name_ref_text depth idx = Ok t ->
      t = render_cell (column_letters (r_c1 (series_name_rng depth idx))) (r_r1 (series_name_rng depth idx))) /\
-  (forall depth leafs, 1 <= depth <= 26 ->
-     categories_ref_text depth leafs = Ok (render_rng (categories_rng depth leafs))) /\
+  (forall depth leafs t, categories_ref_text depth leafs = Ok t ->
+     t = render_rng (categories_rng depth leafs)) /\
   (forall col off len, 1 <= col <= 26 -> xy_col_ref_text col off len = render_rng (xy_col_rng col off len)) /\
   (forall off, xy_name_ref_text off = render_cell (column_letters (r_c1 (xy_name_rng off))) (r_r1 (xy_name_rng off))).
 Proof.
@@ -146,6 +147,14 @@ Proof.
         (conj categories_ref_text_render (conj xy_ref_text_render xy_name_ref_text_render)))).
 Qed.
 Print Assumptions C08_ref_texts.
+
+(** categories_ref raises exactly without categories or beyond column 16384, and is
+    the rendering of the structured reference for every depth inside. *)
+Theorem C08_categories_ref_guard : forall depth leafs,
+  (categories_ref_text depth leafs = Err ValueErr <-> (depth = 0 \/ 16384 < depth)) /\
+  (1 <= depth <= 16384 -> categories_ref_text depth leafs = Ok (render_rng (categories_rng depth leafs))).
+Proof. exact categories_ref_text_guard. Qed.
+Print Assumptions C08_categories_ref_guard.
 
 (** Edge the proof forces: an empty series gets a reversed range ($B$2:$B$1). *)
 Theorem C08_empty_series_range : forall depth idx col off,
@@ -161,23 +170,14 @@ Print Assumptions C08_empty_series_ref_text.
 
 (** Outside the domain the faithful model refutes the property (cat_verdict = Some
     false: XML and sheet are produced and disagree): a name starting with =, an empty
-    series, a datetime label with a time of day, datetime(1900,1,1), a date label on a
-    chart whose XML says date1904 (the same data agrees under 1900), None among numeric
-    labels; 27 category levels (26 agree); XY and bubble data with an empty series. *)
+    series, a date label on a chart whose XML says date1904 (the same data agrees under
+    1900); XY and bubble data with an empty series. *)
 Theorem C08_outside_domain_refuted :
   cat_verdict false w_formula = Some false /\ cat_verdict false w_empty = Some false /\
-  cat_verdict false w_time = Some false /\ cat_verdict false w_1900 = Some false /\
   cat_verdict true w_date = Some false /\ cat_verdict false w_date = Some true /\
-  cat_verdict false w_none = Some false /\
-  cat_verdict false w_depth27 = Some false /\ cat_verdict false ex_depth26 = Some true /\
   xy_verdict false w_xy_empty = false /\ xy_verdict true w_xy_empty = false.
 Proof. exact witnesses_refuted. Qed.
 Print Assumptions C08_outside_domain_refuted.
-
-Theorem C08_depth27_refuted :
-  categories_ref_text 27 1 = Ok (render_range [65] 2 [91] 2) /\ ~ (65 <= 91 <= 90).
-Proof. exact depth27_ref_not_a_column. Qed.
-Print Assumptions C08_depth27_refuted.
 
 Theorem C08_long_string_refuted : forall s,
   formula_like s = false -> array_formula_like s = false -> url_like s = false ->
@@ -200,6 +200,23 @@ Example C08_example_history :
   exists st, run_ops (new_chart (CatD ex_cat)) [OpReplace (CatD ex_dates); OpDate1904 true; OpReplace (CatD ex_cat)] = Ok st
              /\ agree_chart st = true /\ ch_parts st = 1.
 Proof. exact example_history. Qed.
+
+Example C08_example_long_string :
+  formula_like w_long = false /\ array_formula_like w_long = false /\ url_like w_long = false /\
+  xl_strmax < len_N w_long.
+Proof. exact w_long_hyps. Qed.
+
+(** Regression: the witnesses that refuted the property before the fixes of
+    _write_cat_column, categories_ref and numeric_str_val (datetime label with a time of
+    day, datetime(1900,1,1), None among numeric labels, 27 category levels) are in the
+    domain and agree. *)
+Example C08_former_witnesses_agree :
+  cat_domain false w_time = true /\ cat_verdict false w_time = Some true /\
+  cat_domain false w_1900 = true /\ cat_verdict false w_1900 = Some true /\
+  cat_domain false w_none = true /\ cat_verdict false w_none = Some true /\
+  cat_domain false w_depth27 = true /\ cat_verdict false w_depth27 = Some true /\
+  categories_ref_text 27 1 = Ok [83; 104; 101; 101; 116; 49; 33; 36; 65; 36; 50; 58; 36; 65; 65; 36; 50].
+Proof. exact former_witnesses_agree. Qed.
 
 Example C08_example_colref :
   column_reference 703 = Ok [65; 65; 65] /\ column_reference 16384 = Ok [88; 70; 68] /\
